@@ -22,9 +22,9 @@ RELEVANT = {
 }
 
 ARGS = {
-    ("C11", "quick"): ["-modes", "bfs,random,conc", "-bfs-depth", "5", "-bfs-sym", "-bfs-nosym-depth", "4", "-random", "300", "-random-len", "60", "-conc", "12"],
+    ("C11", "quick"): ["-modes", "bfs,random,conc", "-bfs-depth", "5", "-bfs-sym", "-bfs-nosym-depth", "3", "-random", "300", "-random-len", "60", "-conc", "12"],
     ("C11", "thorough"): ["-modes", "bfs,random,conc", "-bfs-depth", "7", "-bfs-sym", "-bfs-nosym-depth", "5", "-bfs-full-configs", "-random", "4000", "-random-len", "200", "-conc", "400"],
-    ("C17", "quick"): ["-modes", "bfs,random", "-bfs-depth", "5", "-bfs-sym", "-bfs-nosym-depth", "4", "-random", "400", "-random-len", "60", "-random-ids", "5"],
+    ("C17", "quick"): ["-modes", "bfs,random", "-bfs-depth", "5", "-bfs-sym", "-bfs-nosym-depth", "3", "-random", "400", "-random-len", "60", "-random-ids", "5"],
     ("C17", "thorough"): ["-modes", "bfs,random,conc", "-bfs-depth", "7", "-bfs-sym", "-bfs-nosym-depth", "5", "-bfs-full-configs", "-random", "4000", "-random-len", "200", "-conc", "100"],
 }
 
@@ -98,7 +98,7 @@ MANIFEST = {
                     "critical sections = every interleaving, every ComposeFrom/Send fault oracle, every clock): exactly_once / accounting (permutation), "
                     "group_integrity (each composite = the events of its id pending since the group opened, in arrival order), dests_permitted (discard only "
                     "for no-Broker / compose error / Gateable composite / send error), handed_over_exactly_once_after_flush, accepted_withheld, flush_returns_group, non_gateable_identity, "
-                    "empty_id_rejected, broker_composites_not_gateable; tie: gatedh runs every history to depth 5 (quick; up to renaming of ids, and to depth 4 without that reduction) / 7 (thorough; depth 5 without it) "
+                    "empty_id_rejected, broker_composites_not_gateable; tie: gatedh runs every history to depth 5 (quick; up to renaming of ids, and to depth 3 without that reduction) / 7 (thorough; depth 5 without it) "
                     "over {event(3 ids, flush?), no-id event, non-Gateable, clock advances 1/exp-1/exp/exp+1, FlushAll, Close} x Broker set/unset x fault "
                     "oracles, random histories to 200 calls over 5 ids and concurrent senders on the real filter; Run_Gated.mismatches compares result, "
                     "ComposeFrom arguments, Sender payloads and the VerifGated snapshot after every call and evaluates observation-only oracles",
